@@ -39,7 +39,9 @@ RULE = ("each run draws a chain of 0-3 pre-elements (callable, Variable, Filter,
         " Variables with data attributes named like methods, selectors of Filter given as function"
         " / Selector / Selector(raise_on_error=False) around a raising predicate / list / tuple /"
         " class, post-elements Slice(1), Reverse and a second accumulator; adapter cases with"
-        " decoy standard methods, composite uses and elements that are empty containers.")
+        " decoy standard methods, composite uses and elements that are empty containers."
+        " Also: the builtin int as pre-element, Compose and typed Variables, a FillRequest"
+        " adapter as post-element, a stopping sibling that also changes its copy of the values.")
 REAL = ["lena.core.Sequence", "lena.core.FillComputeSeq", "lena.core.FillSeq", "lena.core.Split",
         "lena.core adapters (Call, Run, FillInto, FillCompute, SourceEl)", "lena.flow.Filter",
         "lena.flow.Slice", "lena.flow.RunIf", "lena.flow.Count", "lena.flow.StoreFilled",
@@ -87,8 +89,8 @@ def gen_scenario(tape):
     sc.vector = sc.acc == "vectorize"
     sc.pre = []
     for _ in range(tape.weighted([(2, 0), (4, 1), (3, 2), (2, 3)], "npre")):
-        k = tape.weighted([(3, "call"), (2, "variable"), (3, "filter"), (3, "slice"), (2, "runif")],
-                          "pre")
+        k = tape.weighted([(3, "call"), (2, "variable"), (3, "filter"), (3, "slice"), (2, "runif"),
+                           (1, "compose")], "pre")
         if k == "filter":
             # how the selector is given: a function, a Selector (which may be told to take an
             # exception of its function for False), a list / tuple of selectors, a class
@@ -113,6 +115,9 @@ def gen_scenario(tape):
             sc.pre.append(("runif", tape.draw(8, "pred"), tape.draw(3, "ninner"),
                            tape.weighted([(4, None), (2, "dup"), (1, "slice1"), (1, "trailer"),
                                           (1, "count")], "runif-extra")))
+        elif k == "compose":
+            # a composition of two typed variables followed by another typed variable
+            sc.pre.append(("compose", tape.draw(3, "fn")))
         elif k == "call":
             sc.pre.append(("call", tape.draw(3, "fn")))
         else:
@@ -307,8 +312,18 @@ def make_chain(sc, fills):
             # keyword arguments of a Variable become its attributes: "run" (say, a run number) is
             # data, not a method
             extra = {"run": 2021} if (j + st[1]) % 2 else {}
+            if st[1] != 1:
+                # a typed variable (types are collected in context.variable.compose)
+                extra["type"] = "coordinate"
             els.append(lena.variables.Variable(
                 "v%d" % j, lambda d, f=f: tuple(f(x) for x in d) if isinstance(d, tuple) else f(d), **extra))
+        elif st[0] == "compose":
+            f = FNS[st[1]]
+            g = lambda d, f=f: tuple(f(x) for x in d) if isinstance(d, tuple) else f(d)
+            ident = lambda d: d
+            els.append(lena.variables.Compose(
+                lena.variables.Variable("c%da" % j, ident, type="coordinate"),
+                lena.variables.Variable("c%db" % j, g, type="coordinate")))
         elif st[0] == "callnone":
             els.append(lambda v, p=PREDS[st[1]]: None if p(v) else v)
         elif st[0] == "builtin":
@@ -454,7 +469,11 @@ def blocked(sc):
         slog = Log()
         for j in range(sc.nsib_before):
             branches.append((lambda v: v, ProbeFC(slog, "sibA%d" % j)))
-        if sc.stopper is not None:
+        if sc.stopper is not None and sc.with_context and sc.copy_buf:
+            # the sibling that stops also changes its (own copy of the) values in place
+            branches.append((lena.context.UpdateContext("sibling_mark", 1), lena.flow.Slice(sc.stopper),
+                             ProbeFC(slog, "sibS")))
+        elif sc.stopper is not None:
             branches.append((lena.flow.Slice(sc.stopper), ProbeFC(slog, "sibS")))
         branches.append(lena.core.FillComputeSeq(*chain) if sc.explicit_fcs else tuple(chain))
         for j in range(sc.nsib_after):
@@ -591,7 +610,7 @@ def culprit(sc, base, r, what):
                         "callgen": "callable-returning-a-generator",
                         "callraise": "callable-raising-a-Lena-exception",
                         "callcount": "stateful-callable",
-                        "builtin": "builtin-callable"}.get(sc.pre[j - 1][0], sc.pre[j - 1][0])
+                        "builtin": "builtin-callable", "compose": "Variable"}.get(sc.pre[j - 1][0], sc.pre[j - 1][0])
     if what == "out" and sc.post:
         return "post-" + sc.acc
     return "acc-" + sc.acc
